@@ -3,6 +3,7 @@
 package gen
 
 import (
+	"encoding/json"
 	"fmt"
 	"math/rand/v2"
 	"sort"
@@ -921,4 +922,37 @@ func (g *G) WideTuples(m *rm.Model, fan, chain int) []rm.Tuple {
 		}
 	}
 	return out
+}
+
+// SwapVariant returns a copy of m in which two relations of one type have exchanged their
+// definitions (rewrite and type restrictions): same names everywhere, different meaning. Tupleset
+// relations are left alone. Returns nil when no such pair exists.
+func (g *G) SwapVariant(m *rm.Model) *rm.Model {
+	data, _ := json.Marshal(m)
+	var c rm.Model
+	if json.Unmarshal(data, &c) != nil {
+		return nil
+	}
+	isTS := map[string]bool{}
+	for _, n := range tuplesetNames {
+		isTS[n] = true
+	}
+	var cands [][3]int
+	for ti, t := range c.Types {
+		for i := 0; i < len(t.Relations); i++ {
+			for j := i + 1; j < len(t.Relations); j++ {
+				if !isTS[t.Relations[i].Name] && !isTS[t.Relations[j].Name] {
+					cands = append(cands, [3]int{ti, i, j})
+				}
+			}
+		}
+	}
+	if len(cands) == 0 {
+		return nil
+	}
+	p := Pick(g, cands)
+	a, b := c.Types[p[0]].Relations[p[1]], c.Types[p[0]].Relations[p[2]]
+	a.Rewrite, b.Rewrite = b.Rewrite, a.Rewrite
+	a.Restrictions, b.Restrictions = b.Restrictions, a.Restrictions
+	return &c
 }
